@@ -13,6 +13,8 @@ package mobile
 // read only after cscaOnce.Do returned.
 //@ guarded Reader.maxRead, Reader.skipPace, Reader.skipImages, Reader.aaChallenge by mu for C20
 //@ immutable Reader.status, Reader.transceiver for C20
+// the host's transceiver is used for a whole read under the exclusive hold (two reads on one Reader must not interleave on the link)
+//@ exclusive Reader.transceiver by mu for C20
 //@ guarded Verifier.aaChallenge by mu for C20
 //@ onceguarded cscaCertPool, cscaInitErr by cscaOnce for C20
 
